@@ -215,6 +215,14 @@ def oracle_a(c):
         tm = TRS("1n1w01" if exp_trs != "1n1w01" else "2s2e02")
         h0 = hash(tm)
         tm.set_twprgesec(twp_arg, rge_arg, sec_arg, **kw)
+        # what the object held before does not colour the new value (whichever directions it had)
+        for prior in ("23s10e05", "23n10w05", "XXXzXXXzXX"):
+            tp = TRS(prior)
+            tp.set_twprgesec(twp_arg, rge_arg, sec_arg, **kw)
+            check_decomposition(tp, exp_twp, exp_rge, exp_sec, f"TRS({prior!r}).set_twprgesec", fails)
+            tq = Tract("NE/4", trs=prior)
+            tq.set_twprgesec(twp_arg, rge_arg, sec_arg, **kw)
+            check_decomposition(tq, exp_twp, exp_rge, exp_sec, f"Tract(trs={prior!r}).set_twprgesec", fails)
         tn = TRS("9s9e09")
         hash(tn)
         tn.trs = exp_trs
@@ -268,7 +276,7 @@ def oracle_a(c):
 # ---------------------------------------------------------------------------
 # B: strictness
 
-ALPHABET = "0123456789nsewxzXZ_ -\n\t."
+ALPHABET = "0123456789nsewxzXZ_ -\n\t." + "|,[]^?*+()\\/:"       # (the second group: characters with a meaning inside a pattern)
 
 
 def valid_pool():
